@@ -68,6 +68,8 @@ def idle(T, g1, g2, g3, n_cmds):
         exp_codes.append(all_codes[i])
     exp_end = t + T
     hb.path_done("c16_idle", ",".join(codes))
+    if codes[-1:] == ["421"] and len(codes) == len(exp_codes) + 1:
+        codes = codes[:-1]  # a farewell 421 before the control connection is closed is allowed (RFC 959)
     if tie:
         ok = end == exp_end or codes[: len(exp_codes)] == exp_codes
     else:
